@@ -47,7 +47,11 @@ def gen_setup_cfg(rnd, present):
     inline = [d for d in deps if ";" not in d][:1]
     if rnd.random() < 0.3 and inline: ir = "install_requires = " + inline[0] + "\n"   # inline form: ONE requirement (setuptools splits this value on newlines or ';', never on ',')
     else: ir = "install_requires =\n" + "".join(f"    {d}\n" for d in deps)
-    return "[metadata]\nname = x\n# comment\n\n[options]\npackages = find:\n" + ir + "\n[options.extras_require]\ndev =\n    pytest\n"
+    # a requirement of install_requires is often named again in an extra (verbatim, or as the tail of another project's name): those lists are unrelated content
+    more = ""
+    if deps and not ir.startswith("install_requires = ") and rnd.random() < 0.5:
+        last = deps[-1]; more = rnd.choice((f"    {last}\n", f"    pytest-{last}\n", f"all =\n    {deps[0]}\n    {last}\n", f"    x{last}\n    other\n"))
+    return "[metadata]\nname = x\n# comment\n\n[options]\npackages = find:\n" + ir + "\n[options.extras_require]\ndev =\n    pytest\n" + more
 GEN = {"requirements.txt": gen_requirements, "pyproject.toml": gen_pyproject, "setup.py": gen_setup_py, "setup.cfg": gen_setup_cfg}
 
 def declared_entries(kind, text):
